@@ -689,16 +689,25 @@ impl ExecutableContent for SendParameters {
                         .unwrap()
                         .send(&global_clone, target_str.as_str(), event.clone());
                 });
-                if let Some(g) = tg {
-                    // Sends without id are registered too: the end of the session cancels them.
-                    registry_lock
-                        .delayed_send
-                        .entry(send_id.clone())
-                        .or_default()
-                        .push((serial, g));
+                let scheduled = match tg {
+                    Ok(Some(g)) => {
+                        // Sends without id are registered too: the end of the session cancels them.
+                        registry_lock
+                            .delayed_send
+                            .entry(send_id.clone())
+                            .or_default()
+                            .push((serial, g));
+                        true
+                    }
+                    Ok(None) => true,
+                    Err(msg) => {
+                        // Delay is invalid
+                        error!("Send: illegal delay {}: {}", self.delay_expr, msg);
+                        false
+                    }
                 };
                 drop(registry_lock);
-                true
+                scheduled
             } else {
                 error!("Unknown io-processor {}", type_val_str);
                 false
